@@ -107,9 +107,16 @@ def slice_sig(st, M, o):
         return 'slice:start in {omitted,0} and stop=-1 (sentinel)'
     return 'slice:' + c25.region(s, a, b)
 
+_DECKIND = re.compile(r'\b(?:col|param|expr|const):dec\b')
+def skel(eng, M):
+    """operator skeleton; the operand kinds C01 keeps for Decimal operands (SQLite binds Decimal parameters as text) are erased
+    for the model dialects, where the kind makes no difference"""
+    s = qx.op_skeleton(M)
+    return s if eng.name == 'sqlite' else _DECKIND.sub('dec', s)
+
 def expr_sig(eng, st, M, rid):
     o = st['pids'].get(rid)
-    if o is None: return '%s [?]' % qx.op_skeleton(M)
+    if o is None: return '%s [?]' % skel(eng, M)
     if M.op in c01.LAZY_OPS and qx.dead_navigation(st['ev'], M, qx.Env({'p': o})):
         return '%s: operand navigating through a None reference is not evaluated in Python, row lost by the inner join' % c01.LAZY_OPS[M.op]
     if M.op in SLICES: return slice_sig(st, M, o)
@@ -122,8 +129,8 @@ def expr_sig(eng, st, M, rid):
         if pats is None:
             pats = st['proj'][k] = {x.id: _nonepat(qx.operand_classes(st['ev'], M, qx.Env({'p': x}))) for x in st['data'].persons}
         same = [i for i, p_ in pats.items() if p_ == pat and r.get(i) is not None]
-        if same and all(r.get(i) is False for i in same): return '%s [%s]' % (qx.op_skeleton(M), pat)
-    return '%s [%s]' % (qx.op_skeleton(M), fine)
+        if same and all(r.get(i) is False for i in same): return '%s [%s]' % (skel(eng, M), pat)
+    return '%s [%s]' % (skel(eng, M), fine)
 
 def signatures(eng, st, pos, q, E, mm):
     """{key: (signature, mismatch, row id, blamed sub-expression or None)} for the mismatches of one answered query on one
